@@ -49,6 +49,10 @@ def one(job):
             if got != c.expect:
                 i = next((i for i, (a, b) in enumerate(zip(got, c.expect)) if a != b), min(len(got), len(c.expect)))
                 prob = f"datagram-mismatch: got {len(got)} want {len(c.expect)} datagrams, first difference at #{i}"
+                late = [e for k, e in enumerate(c.expect) if k not in c.early_expect]
+                if f["zero_rtt"] and not f["early_suite_first"] and got == late:
+                    # exactly the 0-RTT datagrams sent before the ServerHello are missing, everything else is exact
+                    prob = "early-data-lost: the 0-RTT datagrams of a resumed suite that is not the first offered one are missing"
         except wire.FrameError as e:
             prob = f"bad-frame:{e}"
     if prob:
@@ -74,6 +78,14 @@ def features_for(ctx, i):
         j = i - 12 - len(pairs)
         return [{"retry": True}, {"zero_rtt": True}, {"ch_split": "desc"}, {"ch_split": "shuffle"}, {"key_updates": 3},
                 {"new_cid": True}][j]
+    if i in (12 + len(pairs) + 7, 12 + len(pairs) + 8):
+        return [{"loopback": True, "scid_c_len": 8, "scid_s_len": 8, "same_cid": False},
+                {"pn_half": True, "pn_big": False, "reorder": False}][i - (12 + len(pairs) + 7)]
+    k0 = 12 + len(pairs) + 9
+    if i < k0 + 4:
+        # 0-RTT of a resumed session whose suite stands anywhere in the offer (RFC 8446 4.2.11), followed by 1-RTT traffic
+        return {"zero_rtt": True, "early_suite_anywhere": True, "suite": suites[(i - k0) % 4],
+                "offer_order": ["shuffled", "default"][(i - k0) % 2], "retry": False}
     if i == 12 + len(pairs) + 6:
         return {"long": True, "pn_big": False}        # several hundred 1-byte packet numbers in a row
     return {}
@@ -95,11 +107,17 @@ def explore(ctx, scale=1):
         if prob:
             o["violations"] += 1
             tags = sorted(k for k, v in (("zero-cid", f["scid_c_len"] == 0 or f["scid_s_len"] == 0),
+                                         ("early-suite-not-first", f["zero_rtt"] and not f["early_suite_first"]),
                                          ("chacha", f["suite"] == 0x1303), ("ch-split", bool(f["ch_split"])),
                                          ("retry", f["retry"]), ("0rtt", f["zero_rtt"]), ("key-update", f["key_updates"] > 0),
                                          ("new-cid", f["new_cid"])) if v)
             kind = prob.split(":")[0] if not prob.startswith("crash") else prob.split(" ")[0]
-            ctx.fail(f"C02:{{{','.join(tags)}}}:{kind}", "exported UDP payloads differ from the per-datagram STREAM data sent",
+            sig = f"C02:{{{','.join(tags)}}}:{kind}"
+            if kind == "early-data-lost":
+                # the one recorded finding: ONLY the 0-RTT datagrams are missing and ONLY when the resumed suite is not the
+                # first offered one; anything else about such a connection is reported under its own signature
+                sig = "C02:{0rtt,early-suite-not-first}:early-data-lost"
+            ctx.fail(sig, "exported UDP payloads differ from the per-datagram STREAM data sent",
                      {"seed": seed, "features": f, **blob}, expected="one non-empty datagram per input datagram with "
                      "stream data: (timestamp, direction, concatenated STREAM data)", actual=prob,
                      how="bin/check C02 --replay <this file>")
